@@ -44,6 +44,18 @@ CHECKS = {
         note="Trusts stubeval/ast; classes with the same short name in two modules are outside the alphabet.",
         ref="DESIGN.md section 4 C11",
     ),
+    "C12": dict(
+        technique="explicit enumeration of all valid parameter lists x function kinds x class depths, all traced subsets per generated module, stubs compared with inspect.signature (bounded exhaustive, E1)",
+        text="Every valid parameter list of up to 3/4 parameters over the six kinds (plus long-name lists that wrap), for every function kind and class depth 0..2, is generated as real modules; for every subset of traced functions (and varying traced parameters) the rendered stub must parse and mirror names, kinds, order, defaults, decorators, async and an unannotated receiver.",
+        note="Trusts ast and inspect.signature.",
+        ref="DESIGN.md section 4 C12",
+    ),
+    "C13": dict(
+        technique="explicit enumeration of the annotated? x traced? x strategy x result-kind matrix over generated signatures, API and CLI flags (bounded exhaustive, E1)",
+        text="Every subset of {receiver, parameters, return} annotated with each of five annotation kinds x every traced subset x REPLICATE/OMIT/IGNORE x five result kinds x three function kinds is generated as real source and run through the real stub builder (and the CLI flags); each position is compared with the expectation table of the property.",
+        note="The IGNORE/annotated/untraced cell is left open as the property leaves it; Optional[T] accepted for a traced None-default parameter.",
+        ref="DESIGN.md section 4 C13",
+    ),
 }
 
 NOT_YET = {}
